@@ -180,6 +180,32 @@ def c10_2(ctx):
     st = self_attr_stores(po.methods['__init__'].node, '_operand_str')
     ok = ok and len(st) == 1 and unparse(st[0][2]) == po.methods['__init__'].call_params[3].arg
     ctx.check(ok, 'accessor:operand-text', s_.site(), 'the full operand text is the text the operand was parsed from', '; '.join(unparse(r) for r in rr))
+    # every operand type records the operand's *full* text
+    po_init = po.methods['__init__']
+    base = ctx.repo.cls('bespokeasm.assembler.model.operand.Operand')
+    n_txt = 0
+    for c in [base] + base.all_subclasses():
+        for mname in ('parse_operand', '_parse_bytecode_parts'):
+            f = c.methods.get(mname)
+            if f is None or 'operand' not in f.param_names:
+                continue
+            for call in [x for x in ast.walk(f.node) if isinstance(x, ast.Call) and unparse(x.func) == 'ParsedOperand']:
+                n_txt += 1
+                t = bind_args(call, po_init).get('operand_str')
+                ctx.check(t is not None and unparse(t) == 'operand', f'accessor:full-operand-text:{c.name}.{mname}', f.site(call),
+                          'the text recorded for an operand is the whole operand text it was parsed from (what @OP(n) reproduces)',
+                          f'recorded text: {unparse(t) if t is not None else None}')
+            if mname == 'parse_operand':
+                for r in returns(f):
+                    v = deref(ctx, f, r.value, r) if r.value is not None else None
+                    if isinstance(v, ast.Call) and unparse(v.func) == 'self._parse_bytecode_parts':
+                        n_txt += 1
+                        a = v.args[1] if len(v.args) > 1 else None
+                        ctx.check(a is not None and unparse(a) == 'operand', f'accessor:full-operand-text:{c.name}.parse_operand:delegated', f.site(r),
+                                  'a result delegated to _parse_bytecode_parts was parsed from the whole operand text (otherwise it must be re-wrapped with it)',
+                                  f'delegates with text {unparse(a) if a is not None else None}: @OP(n) would reproduce only that part')
+    if n_txt < 12:
+        ctx.err('accessor:full-operand-text', '-', 'at least 12 ParsedOperand construction sites', f'{n_txt}')
     reg = ctx.repo.func('bespokeasm.assembler.model.operand.types.register.RegisterOperand.operand_register_string')
     rr = returns(reg)
     ctx.check(len(rr) == 1 and unparse(rr[0].value) == 'self.register', 'accessor:register-operand', reg.site(), 'a register operand\'s register string is its register', '; '.join(unparse(r) for r in rr))
@@ -309,6 +335,11 @@ MUTANTS = [
     V('c10-macro-collision', 'assembler/model/instruction_set.py', "                if mnemonic in self:\n                    sys.exit(f'ERROR - Macro \"{mnemonic}\" has same mnemonic as a configured instruction.')\n", "", 'C10.4'),
     V('c10-arg-accessor-raw', 'assembler/model/operand/__init__.py', "        return self.argument.instruction_string", "        return self._operand_str", 'C10.2'),
     V('c10-registers-dropped', _M, "                line_id, operand_list, isa_model.registers, memzone_manager,\n            )\n            if matched_operands is None:\n                return None\n        elif", "                line_id, operand_list, set(), memzone_manager,\n            )\n            if matched_operands is None:\n                return None\n        elif", 'C10.3'),
+]
+MUTANTS += [
+    V('c10-indexed-text-partial', 'assembler/model/operand/types/indexed_register.py', "                    return ParsedOperand(self, bytecode_part, parsed_index.argument, operand)", "                    return ParsedOperand(self, bytecode_part, parsed_index.argument, index_operand_str)", 'C10.2'),
+    V('c10-indirect-numeric-inner-text', 'assembler/model/operand/types/indirect_numeric.py', "            return ParsedOperand(self, parsed_inner.bytecode, parsed_inner.argument, operand)", "            return parsed_inner", 'C10.2'),
+    V('c10-step-size-macro', _A, "step_bytes = instr.get_bytes(label_scope, step_address, instr.byte_size)", "step_bytes = instr.get_bytes(label_scope, step_address, instruction_size)", 'C10.1'),
 ]
 TWINS = [
     V('c10-t-size-loop', _A, "        self._byte_size = sum(instr.byte_size for instr in instructions)\n", "        self._byte_size = sum([step.byte_size for step in self._instructions])\n"),
